@@ -316,7 +316,7 @@ func harmonise(raw json.RawMessage, c *ucase) {
 		ps = append(ps, &profile.Profile{
 			SampleType: []*profile.ValueType{{Type: "t", Unit: spellOut(u)}},
 			PeriodType: &profile.ValueType{Type: "t", Unit: spellOut(u)}, Period: 1,
-			Sample:     []*profile.Sample{{Value: []int64{v}}, {Value: []int64{1}}},
+			Sample: []*profile.Sample{{Value: []int64{v}}, {Value: []int64{1}}},
 		})
 		total.Add(total, new(big.Rat).Mul(big.NewRat(v+1, 1), factor(u)))
 	}
@@ -340,7 +340,17 @@ func harmonise(raw json.RawMessage, c *ucase) {
 			sum.Add(sum, new(big.Rat).Mul(new(big.Rat).SetFloat64(f*float64(s.Value[0])), factor(finest)))
 		}
 	}
-	if sum.Cmp(total) != 0 {
+	// the class in which the exact value in the finest unit does not fit an int64 is a separate (recorded) finding
+	overflow := false
+	for i, u := range us {
+		x := new(big.Rat).Quo(new(big.Rat).Mul(big.NewRat(int64(3+2*i), 1), factor(u)), factor(finest))
+		if x.Cmp(new(big.Rat).SetInt64(math.MaxInt64)) > 0 {
+			overflow = true
+		}
+	}
+	if sum.Cmp(total) != 0 && overflow {
+		run.Violate("harmonise", "harmonise-overflow:int64", fmt.Sprintf("units (%s, %s, %s): the value in the finest unit exceeds int64; physical total %s became %s without an error", us[0].Name, us[1].Name, us[2].Name, total.FloatString(3), sum.FloatString(3)), raw, nil)
+	} else if sum.Cmp(total) != 0 {
 		run.Violate("harmonise", "totals-not-preserved", fmt.Sprintf("units (%s, %s, %s): physical total %s became %s", us[0].Name, us[1].Name, us[2].Name, total.FloatString(3), sum.FloatString(3)), raw, nil)
 	}
 }
